@@ -423,7 +423,7 @@ impl Scenario for C20 {
                     // lossy reader keeps them as empty lines, the lossless one does not report them); fields it re-serialises
                     // (lists, dates, sets) are compared modulo whitespace
                     let lines = |t: &str| t.split('\n').filter(|l| !l.trim().is_empty()).map(|l| l.to_string()).collect::<Vec<_>>();
-                    let reserialised = ["Types", "Architectures", "Components", "Suites", "Environment", "Targets", "Languages", "Binary", "Date", "Valid-Until", "Package-List", "URIs", "Signed-By", "Files", "Checksums-Sha1", "Checksums-Sha256", "Uploaders", "Tag"].contains(&name.as_str());
+                    let reserialised = ["Types", "Architectures", "Components", "Suites", "Environment", "Targets", "Languages", "Binary", "Date", "Valid-Until", "Package-List", "URIs", "Signed-By", "Files", "Files-Excluded", "Checksums-Sha1", "Checksums-Sha256", "Uploaders", "Tag"].contains(&name.as_str());
                     if !reserialised && lines(&raw) != lines(val) {
                         return Err(v("lossless-agreement", &kind, &format!("field-{name}"), format!("field {name}: typed value holds the lines {:?}, lossless reader shows {:?} (text {:?})", lines(val), lines(&raw), c.text)));
                     }
@@ -431,6 +431,38 @@ impl Scenario for C20 {
                     if !same {
                         return Err(v("lossless-agreement", &kind, &format!("field-{name}"), format!("field {name}: typed value serialises {:?}, lossless reader shows {:?} (text {:?})", val, raw, c.text)));
                     }
+                }
+            }
+        }
+        // list-valued fields: the typed value holds the items the lossless view shows, not the raw line
+        if let Some(seg) = crate::model::segmenter::segment(&c.text) {
+            let raws = crate::model::segmenter::paragraphs(&seg);
+            let (field, sep_comma) = match kind.as_str() {
+                "copyright" => ("Files", false),
+                "apt-source" => ("Binary", true),
+                _ => ("", false),
+            };
+            if !field.is_empty() {
+                let want: Vec<Vec<String>> = raws
+                    .iter()
+                    .filter_map(|p| p.iter().find(|e| e.0 == field))
+                    .map(|e| e.1.split(|ch: char| ch.is_whitespace() || (sep_comma && ch == ',')).filter(|x| !x.is_empty()).map(|x| x.to_string()).collect())
+                    .collect();
+                // the items as the typed value prints them in its Debug form: `files: ["a", "b"]` / `binaries: Some(["a", "b"])`
+                // (`files: ["` with the quote: the copyright value also has a `files: [FilesParagraph {..}]` member)
+                let key = if field == "Files" { "files: [\"" } else { "binaries: Some([\"" };
+                let mut got: Vec<Vec<String>> = Vec::new();
+                let mut rest = first.dbg.as_str();
+                while let Some(i) = rest.find(key) {
+                    let tail = &rest[i + key.len() - 1..];
+                    let end = tail.find(']').unwrap_or(tail.len());
+                    let items: Vec<String> = tail[..end].split("\", \"").map(|x| x.trim_matches('"').to_string()).filter(|x| !x.is_empty()).collect();
+                    got.push(items);
+                    rest = &tail[end..];
+                }
+                let simple = want.iter().flatten().all(|x| !x.contains('"') && !x.contains('\\') && !x.contains(']') && x.is_ascii());
+                if simple && !want.is_empty() && got != want {
+                    return Err(v("lossless-agreement", &kind, &format!("items-{field}"), format!("field {field}: the typed value holds the items {:?}, the text lists {:?} ({:?})", got, want, c.text)));
                 }
             }
         }
